@@ -5,8 +5,8 @@ cd "$(dirname "$0")"
 [ -n "$(git -C /repo status --porcelain)" ] && { echo "/repo not clean"; exit 2; }
 OUT=${1:-seed_regression.txt}; : > $OUT
 for d in seeded/*/; do
-  n=$(basename $d); id=${n%b}
-  git -C /repo apply $d/patch.diff || { echo "$n PATCH-FAILS" >> $OUT; continue; }
+  n=$(basename $d); id=${n%[bc]}
+  git -C /repo apply /verif/$d/patch.diff || { echo "$n PATCH-FAILS" >> $OUT; continue; }
   s=$(date +%s); VERIF_NO_SAMPLES=1 ./check $id > /tmp/seedreg_$n.log 2>&1; rc=$?; e=$(date +%s)
   git -C /repo checkout -- .
   exp=1; grep -q "NOT DETECTED" $d/meta.json 2>/dev/null && exp=0
